@@ -104,6 +104,7 @@ func as_[T any](x any) T              { var z T; return z }
 func closed_[T any](ch T) bool        { return true }
 func lastrecv_[T any](ch T) bool      { return true }
 func closedhere_[T any](ch T) bool    { return true }
+func holds_[T any](ch T) bool         { return true }
 func safe_(s string) bool             { return true }
 `
 
